@@ -318,8 +318,8 @@ struct Exec {
                 ncmpi_inq_att(ncid, varid, nm, &t, &len); if (t != l[i].type || len != (MPI_Offset)l[i].v.size()) bad(ctx + ": attribute '" + l[i].name + "' type/len " + std::to_string(t) + "/" + std::to_string(len) + " != model " + std::to_string(l[i].type) + "/" + std::to_string(l[i].v.size()));
                 int id = -1; ncmpi_inq_attid(ncid, varid, nm, &id); if (id != i) bad(ctx + ": inq_attid('" + l[i].name + "') = " + std::to_string(id));
                 int mt = native_memtype(t); std::vector<uint8_t> buf((size_t)len * 8 + 8);
-                int grc = api_get_att(ncid, varid, nm, buf.data(), mt); if (grc != NC_NOERR) bad(ctx + ": get_att('" + l[i].name + "') failed: " + ncmpi_strerrno(grc));
-                for (MPI_Offset k = 0; k < len; k++) { long long got; bool ok = read_mem(buf.data() + k * mt_size(mt), mt, got); if (!ok || got != l[i].v[(size_t)k]) bad(ctx + ": attribute '" + l[i].name + "' value[" + std::to_string(k) + "] = " + std::to_string(got) + " != model " + std::to_string(l[i].v[(size_t)k])); }
+                int grc = api_get_att(ncid, varid, nm, buf.data(), mt); if (grc != NC_NOERR && !(grc == NC_ERANGE && l[i].unk >= 0)) bad(ctx + ": get_att('" + l[i].name + "') failed: " + ncmpi_strerrno(grc));
+                for (MPI_Offset k = 0; k < len; k++) { long long got; bool ok = read_mem(buf.data() + k * mt_size(mt), mt, got); if (k == l[i].unk) continue; if (!ok || got != l[i].v[(size_t)k]) bad(ctx + ": attribute '" + l[i].name + "' value[" + std::to_string(k) + "] = " + std::to_string(got) + " != model " + std::to_string(l[i].v[(size_t)k])); }
             }
         };
         chk_atts(NC_GLOBAL, f.gatts, "global");
@@ -443,7 +443,8 @@ struct Exec {
         case OP_FILL_VAR_REC: rc = lib([&] { return ncmpi_fill_var_rec(me.ncid[op.file], op.var, op.a[0] + ((r % 2) ? op.a[1] : 0)); }); rc_check(op, opi, rc, exp_rc(op), op.rc_any); break;
         case OP_PUT_ATT: {
             int mt = native_memtype(op.att.type); std::vector<uint8_t> buf(op.att.v.size() * 8 + 8);
-            for (size_t k = 0; k < op.att.v.size(); k++) write_mem(buf.data() + k * mt_size(mt), mt, op.att.v[k]);
+            if (op.a[3] > 0 && !op.att.v.empty()) mt = MT_INT;   // converting form with one out-of-range element (NC_ERANGE expected)
+            for (size_t k = 0; k < op.att.v.size(); k++) write_mem(buf.data() + k * mt_size(mt), mt, (op.a[3] > 0 && (long long)k == (op.a[3] - 1) % (long long)op.att.v.size()) ? 70000 : op.att.v[k]);
             if (op.note == "multidefine" && r == op.alt_rank && op.alt_name.empty() && op.att.v.size() >= 2) write_mem(buf.data() + (op.att.v.size() - 1) * mt_size(mt), mt, op.att.v.back() == 1 ? 2 : op.att.v.back() - 1);   // C08 safe mode: this rank passes a different last value
             std::string anm = (op.note == "multidefine" && r == op.alt_rank && !op.alt_name.empty()) ? op.alt_name : op.name;
             rc = lib([&] { return api_put_att(me.ncid[op.file], op.var < 0 ? NC_GLOBAL : op.var, anm.c_str(), op.att.type, (MPI_Offset)op.att.v.size(), buf.data(), mt); });
@@ -759,7 +760,7 @@ void Exec::check_files(Op &op, int opi) {
             if (da.size() != ma.size()) fail("file-schema", opi, f.path + " " + ctx + ": " + std::to_string(da.size()) + " attributes in file, model has " + std::to_string(ma.size()));
             for (size_t i = 0; i < ma.size(); i++) {
                 if (da[i].name != ma[i].name || da[i].type != ma[i].type || da[i].nelems != (long long)ma[i].v.size()) fail("file-schema", opi, f.path + " " + ctx + ": attribute " + std::to_string(i) + " '" + da[i].name + "' differs from model '" + ma[i].name + "'");
-                for (size_t k = 0; k < ma[i].v.size(); k++) { double dv; long long iv = cdf::att_int(da[i], (long long)k, &dv); if (iv != ma[i].v[k] || dv != (double)ma[i].v[k]) fail("file-schema", opi, f.path + " " + ctx + ": attribute '" + ma[i].name + "' value[" + std::to_string(k) + "] in file is " + std::to_string(iv) + ", model has " + std::to_string(ma[i].v[k])); }
+                for (size_t k = 0; k < ma[i].v.size(); k++) { if ((int)k == ma[i].unk) continue; double dv; long long iv = cdf::att_int(da[i], (long long)k, &dv); if (iv != ma[i].v[k] || dv != (double)ma[i].v[k]) fail("file-schema", opi, f.path + " " + ctx + ": attribute '" + ma[i].name + "' value[" + std::to_string(k) + "] in file is " + std::to_string(iv) + ", model has " + std::to_string(ma[i].v[k])); }
             }
         };
         cmp_atts(d.gatts, f.gatts, "global");
